@@ -8,6 +8,8 @@
                                                  capacity), src_fw_raises (the `if capacity < 0: raise` guard)
   photoelectrons.py           simple_conversion -> src_qe_select (argument / characteristics), src_qe_range (the
                                                  `if not 0 <= qe <= 1: raise` guard)
+  cdm.py                      cdm             -> src_cdm_fwc_select (argument / characteristics), src_cdm_guard (the
+                                                 range checks on volume, beta, capacity, period, as one bool)
 """
 from __future__ import annotations
 
@@ -364,9 +366,50 @@ def tr_qe_sources(repo: Path) -> str:
             f"Definition src_qe_range (q : Q) : bool := {rng}.\n")
 
 
+def tr_cdm_guard(repo: Path) -> str:
+    tree = parse(repo, "pyxel/models/charge_transfer/cdm.py")
+    fn = find_func(tree, "cdm")
+    body = body_no_doc(fn)
+    sel = [st for st in body if isinstance(st, ast.If) and isinstance(st.test, ast.Compare)
+           and ast.unparse(st.test.left) == "full_well_capacity"]
+    if len(sel) != 1:
+        fail(fn, "cdm: expected one `if full_well_capacity is [not] None` selection")
+    var, sel_t = select_stmt(sel[0], "full_well_capacity", "full_well_capacity")
+    names = {"max_electron_volume": "vg", "beta": "beta", var: "fwc", "transfer_period": "t"}
+    guards, seen = [], set()
+    for st in body:
+        if not (isinstance(st, ast.If) and isinstance(st.test, ast.UnaryOp) and isinstance(st.test.op, ast.Not)
+                and isinstance(st.test.operand, ast.Compare)):
+            continue
+        used = {n.id for n in ast.walk(st.test) if isinstance(n, ast.Name)}
+        if not used or not used <= set(names):
+            continue                                  # isinstance / len checks: not range checks
+        _raise_guard(st)
+        guards.append(guard(st.test, names))
+        seen |= used
+    for st in body:                                   # the checked values are the ones handed to the numba functions
+        for n in ast.walk(st):
+            if isinstance(n, (ast.Assign, ast.AugAssign, ast.AnnAssign)) and st is not sel[0]:
+                tg = n.targets if isinstance(n, ast.Assign) else [n.target]
+                if any(isinstance(t, ast.Name) and t.id in names for t in tg):
+                    fail(n, "a range-checked parameter of cdm is rebound")
+    calls = [n for st in body for n in ast.walk(st) if isinstance(n, ast.Call)
+             and ast.unparse(n.func) in ("run_cdm_parallel", "run_cdm_serial")]
+    if sorted(ast.unparse(c.func) for c in calls) != ["run_cdm_parallel", "run_cdm_serial"]:
+        fail(fn, "cdm must call run_cdm_parallel and run_cdm_serial once each")
+    for c in calls:
+        kw = {k.arg: ast.unparse(k.value) for k in c.keywords}
+        want = dict(vg="max_electron_volume", t="transfer_period", fwc=var, beta="beta")
+        if c.args or any(kw.get(k) != v for k, v in want.items()):
+            fail(c, "run_cdm_* must receive vg, t, fwc, beta as checked")
+    g = " && ".join(f"({x})" for x in guards) if guards else "true"
+    return (f"Definition src_cdm_fwc_select (arg char : option Q) : option Q := {sel_t}.\n"
+            f"Definition src_cdm_guard (vg beta fwc t : Q) : bool := {g}.\n")
+
+
 def translate(repo: Path) -> str:
     return (HEADER + PRE + tr_ipc(repo) + tr_collect(repo) + tr_full_well(repo) + tr_qe(repo) + tr_fw_sources(repo)
-            + tr_qe_sources(repo))
+            + tr_qe_sources(repo) + tr_cdm_guard(repo))
 
 
 FALLBACK = (HEADER + PRE +
@@ -379,4 +422,7 @@ FALLBACK = (HEADER + PRE +
             "Definition src_fw_select (arg char : option Q) : option Q := match arg with None => char | Some a => Some a end.\n"
             "Definition src_fw_raises (c : Q) : bool := (Qltb c 0).\n"
             "Definition src_qe_select (arg char : option Q) : option Q := match arg with None => char | Some a => Some a end.\n"
-            "Definition src_qe_range (q : Q) : bool := Qle_bool 0 q && Qle_bool q 1.\n")
+            "Definition src_qe_range (q : Q) : bool := Qle_bool 0 q && Qle_bool q 1.\n"
+            "Definition src_cdm_fwc_select (arg char : option Q) : option Q := match arg with None => char | Some a => Some a end.\n"
+            "Definition src_cdm_guard (vg beta fwc t : Q) : bool := (Qltb 0 vg && Qle_bool vg 1) && (Qle_bool 0 beta && Qle_bool beta 1) "
+            "&& (Qltb 0 fwc && Qle_bool fwc 10000000) && (Qle_bool 0 t && Qle_bool t 10).\n")
